@@ -12,10 +12,12 @@ import (
 	"bytes"
 	"encoding/json"
 	"fmt"
+	"os"
 	"strings"
 	"time"
 
 	"github.com/cloudwego/shmipc-go/simrt"
+	"github.com/cloudwego/shmipc-go/simrt/simnet"
 	"github.com/cloudwego/shmipc-go/simrt/ssys"
 )
 
@@ -59,8 +61,15 @@ type sessPlan struct {
 	Streams  []streamPlan `json:"streams"`
 	Neighbor []nbOp       `json:"neighbor,omitempty"`
 	Chaos    []nbOp       `json:"chaos,omitempty"`
+	Crash    *crashPlan   `json:"crash,omitempty"`  // C14: peer death / connection loss / Session.Close at an exact scheduling step
 	Accept   bool         `json:"accept,omitempty"` // server obtains streams through AcceptStream instead of the listen callback
 	Faulty   bool         `json:"faulty,omitempty"` // fault-injecting batch (oracle relaxations for failed flushes apply)
+}
+
+type crashPlan struct {
+	Kind   string `json:"kind"`    // kill_client | kill_server | sever | sever_rst | close_client | close_server | close_both
+	AtStep int64  `json:"at_step"` // scheduling steps after the sessions were established (negative: absolute step, during the handshake)
+	Twice  bool   `json:"twice,omitempty"`
 }
 
 type sessScenario struct{}
@@ -289,6 +298,27 @@ func (sessScenario) Gen(r *Rng, tier string, opts map[string]string) interface{}
 			sp.S2C.R = genReaderOps(r, p.Cfg, t2, false)
 		}
 		p.Streams = append(p.Streams, sp)
+	}
+	if prop == "C14" {
+		kinds := []string{"kill_client", "kill_server", "sever", "sever_rst", "close_client", "close_server", "close_both"}
+		c := &crashPlan{Kind: kinds[r.Intn(len(kinds))], Twice: r.Chance(1, 3)}
+		switch r.Intn(5) {
+		case 0:
+			c.AtStep = -int64(5 + r.Intn(400)) // during the handshake
+		case 1:
+			c.AtStep = int64(r.Intn(60))
+		case 2:
+			c.AtStep = int64(r.Intn(600))
+		default:
+			c.AtStep = int64(r.Intn(5000))
+		}
+		if v := opts["crash_at"]; v != "" {
+			fmt.Sscanf(v, "%d", &c.AtStep)
+		}
+		if v := opts["crash_kind"]; v != "" {
+			c.Kind = v
+		}
+		p.Crash = c
 	}
 	// neighbour: exhaustion windows and scribbling
 	if r.Chance(1, 2) {
@@ -567,7 +597,9 @@ type sessWorld struct {
 	plan     *sessPlan
 	sim      *simrt.Sim
 	own      string
-	pc, ps   *simrt.Proc
+	pm, pc, ps *simrt.Proc
+	dir      string
+	crashKind string
 	cli, srv *Session
 	streams  []*sessStream
 	byID     map[uint32]*sessStream
@@ -577,6 +609,22 @@ type sessWorld struct {
 	probes   map[string]int64
 	ops      int64
 	opened   int
+	// crash bookkeeping (C14)
+	established   bool
+	estStep       int64
+	crashed       bool
+	crashAt       time.Duration
+	thr           []*thread
+	fdC, fdS      int
+	sockC         *ssys.Sock
+	hsDone        bool
+}
+
+type thread struct {
+	name string
+	proc *simrt.Proc
+	g    *simrt.G
+	done bool
 }
 
 func (w *sessWorld) on(props ...string) bool {
@@ -649,16 +697,21 @@ func (sessScenario) Run(s *simrt.Sim, plan interface{}, opts map[string]string) 
 	ssys.NewKernel(s, p.Cfg.kernel())
 	installGlobals(s)
 	w := &sessWorld{plan: p, sim: s, own: opts["property"], byID: map[uint32]*sessStream{}, probes: map[string]int64{}}
+	w.pm = newProc(s, "harness", 3000) // the main thread lives in a process of its own: it survives every kill
 	w.pc = newProc(s, "client", 3001)
 	w.ps = newProc(s, "server", 3002)
 	dir := newRunDir(s)
+	w.dir = dir
 	s.OnEnd = append(s.OnEnd, func() {
 		for k, v := range w.probes {
 			s.Counters["probe."+k] = v
 		}
 		s.Counters["sess.ops"] = w.ops
 	})
-	return w.pc, func() { w.main(dir) }
+	if p.Crash != nil {
+		s.StepHook = w.stepHook
+	}
+	return w.pm, func() { w.main(dir) }
 }
 
 type lcb struct{ w *sessWorld }
@@ -666,26 +719,135 @@ type lcb struct{ w *sessWorld }
 func (l *lcb) OnNewStream(st *Stream) { l.w.serverStream(st) }
 func (l *lcb) OnShutdown(reason string) {}
 
+// stepHook injects the C14 fault at an exact scheduling step (runs on the scheduler root).
+func (w *sessWorld) stepHook(step int64) {
+	c := w.plan.Crash
+	if c == nil || w.crashed {
+		return
+	}
+	target := c.AtStep
+	if target >= 0 {
+		if !w.established {
+			return
+		}
+		target += w.estStep
+	} else {
+		target = -target
+		if w.hsDone && !w.established {
+			return
+		}
+	}
+	if step < target {
+		return
+	}
+	w.crashed = true
+	w.crashAt = simrt.Now()
+	kind := c.Kind
+	if !w.established && (kind == "close_client" || kind == "close_server" || kind == "close_both") {
+		kind = "sever"
+	}
+	w.crashKind = kind
+	simrt.Event("CRASH %s at step %d", kind, step)
+	for _, th := range w.thr {
+		th.g.Tag("after_session_loss", "yes") // discriminator of finding F-TEARDOWN (user goroutines racing with / following session teardown)
+	}
+	switch kind {
+	case "kill_client":
+		ssys.K.KillProc(w.pc)
+	case "kill_server":
+		ssys.K.KillProc(w.ps)
+	case "sever", "sever_rst":
+		ssys.K.Sever(w.sockC, kind == "sever_rst")
+	case "close_client", "close_server", "close_both":
+		for _, th := range w.thr {
+			if (kind != "close_server" && th.proc == w.pc) || (kind != "close_client" && th.proc == w.ps) {
+				th.g.Tag("session_closed_locally", "yes")
+			}
+		}
+		closeIt := func(s *Session, name string) {
+			simrt.GoProc(w.pm, name, func() {
+				_ = s.Close()
+				if c.Twice {
+					_ = s.Close()
+				}
+			})
+			if c.Twice {
+				simrt.GoProc(w.pm, name+"2", func() { _ = s.Close() })
+			}
+		}
+		if kind != "close_server" {
+			closeIt(w.cli, "close-client")
+		}
+		if kind != "close_client" {
+			closeIt(w.srv, "close-server")
+		}
+		simrt.Count("fault.session_close_concurrent", 1)
+	}
+}
+
 func (w *sessWorld) main(dir string) {
 	p := w.plan
-	simrt.PointsOn(false)
+	simrt.PointsOn(p.Crash != nil && p.Crash.AtStep < 0)
 	confC := p.Cfg.config(dir, "c")
 	confS := p.Cfg.config(dir, "s")
 	if !p.Accept {
 		confS.listenCallback = &lcb{w}
 	}
-	cli, srv, e1, e2 := sessPair(w.pc, w.ps, confC, confS, "0")
+	w.fdC, w.fdS = ssys.K.SocketPair(w.pc, w.ps, "unix", "@cli-0", "@srv-0")
+	w.sockC = ssys.K.SockOf(w.fdC)
+	connC, connS := simnet.WrapFd(w.fdC), simnet.WrapFd(w.fdS)
+	var cli, srv *Session
+	var e1, e2 error
+	hs := make(chan int, 2)
+	hsStart := simrt.Now()
+	var hsRet [2]time.Duration
+	simrt.GoProc(w.ps, "server-handshake", func() {
+		srv, e2 = Server(connS, confS)
+		if e2 != nil {
+			_ = connS.Close()
+		}
+		hsRet[1] = simrt.Now() + 1
+		simrt.Send(hs, 1)
+	})
+	simrt.GoProc(w.pc, "client-handshake", func() {
+		cli, e1 = newSession(confC, connC, true)
+		if e1 != nil {
+			_ = connC.Close()
+		}
+		hsRet[0] = simrt.Now() + 1
+		simrt.Send(hs, 0)
+	})
+	got := 0
+	bound := time.NewTimer(confC.InitializeTimeout + 30*time.Second)
+	for got < 2 {
+		i, _, _ := simrt.Select(false, simrt.RecvCase(hs), simrt.RecvCase(bound.C))
+		if i != 0 {
+			break
+		}
+		got++
+	}
+	bound.Stop()
+	w.hsDone = true
 	simrt.PointsOn(true)
-	if e1 != nil || e2 != nil {
-		w.fail("harness.handshake", "fault-free handshake failed: client=%v server=%v", e1, e2)
+	w.cli, w.srv = cli, srv
+	if w.crashed {
+		// the fault hit the handshake: every surviving side must have returned, in time, and sessions that did get
+		// created must end up closed
+		w.handshakeCrashOracles(hsStart, hsRet, e1, e2, confC.InitializeTimeout)
 		return
 	}
-	w.cli, w.srv = cli, srv
+	if got < 2 || e1 != nil || e2 != nil {
+		w.fail("harness.handshake", "fault-free handshake failed: returned=%d client=%v server=%v", got, e1, e2)
+		return
+	}
 	w.fin = make(chan int, 64)
 	// open all client streams first so that ids are known before any data flows
 	for i := range p.Streams {
 		st, err := cli.OpenStream()
 		if err != nil {
+			if w.crashed {
+				break
+			}
 			w.fail("harness.open", "OpenStream: %v", err)
 			return
 		}
@@ -698,6 +860,8 @@ func (w *sessWorld) main(dir string) {
 		w.byID[ss.id] = ss
 		w.opened++
 	}
+	w.estStep = simrt.Steps()
+	w.established = true
 	if p.Accept {
 		simrt.GoProc(w.ps, "acceptor", func() {
 			simrt.MarkDaemon()
@@ -730,7 +894,15 @@ func (w *sessWorld) main(dir string) {
 	if simrt.Failed() {
 		return
 	}
+	if w.crashed {
+		w.survivorOracles()
+		return
+	}
 	simrt.Sleep(10 * time.Second) // settle
+	if w.crashed {
+		w.survivorOracles()
+		return
+	}
 	w.quiescenceOracles()
 	if simrt.Failed() {
 		return
@@ -747,6 +919,10 @@ func (w *sessWorld) main(dir string) {
 	w.waitThreads(30 * time.Second)
 	w.releaseHogs()
 	simrt.Sleep(10 * time.Second)
+	if w.crashed {
+		w.survivorOracles()
+		return
+	}
 	w.finalOracles()
 	if simrt.Failed() {
 		return
@@ -754,13 +930,151 @@ func (w *sessWorld) main(dir string) {
 	_ = cli.Close()
 	_ = srv.Close()
 	simrt.Sleep(5 * time.Second)
+	if w.on("C14") {
+		w.census("after a graceful close of both ends")
+	}
+}
+
+func (w *sessWorld) alive(p *simrt.Proc) bool { return !p.Dead }
+
+// census: once both ends are closed the processes hold no descriptor, mapping or file that the session created.
+func (w *sessWorld) census(when string) {
+	for _, pr := range []*simrt.Proc{w.pc, w.ps} {
+		if !w.alive(pr) {
+			continue
+		}
+		c := ssys.K.CensusOf(pr)
+		var socks []string
+		for _, fd := range c.SimFds {
+			if k := ssys.K.FdKind(fd); k != "epoll" {
+				socks = append(socks, fmt.Sprintf("%d:%s", fd, k))
+			}
+		}
+		if len(socks) > 0 || len(c.RealFds) > 0 || c.Mappings > 0 {
+			tags := map[string]string{}
+			if !w.established {
+				tags["phase"] = "handshake"
+			}
+			if len(c.RealFds) == 0 && c.Mappings == 0 {
+				tags["leak"] = "socket_descriptor_only"
+			}
+			w.failTagged("C14.resource_left", tags, "%s, process %s still holds: descriptors %v, memfds %v, %d mapping(s)", when, pr.Name, socks, c.RealFds, c.Mappings)
+			return
+		}
+	}
+	if w.alive(w.pc) && w.alive(w.ps) {
+		ents, _ := os.ReadDir(w.dir)
+		if len(ents) > 0 {
+			names := []string{}
+			for _, e := range ents {
+				names = append(names, e.Name())
+			}
+			w.fail("C14.resource_left", "%s, files are left behind in the shared-memory directory: %v", when, names)
+		}
+	}
+}
+
+func (w *sessWorld) handshakeCrashOracles(hsStart time.Duration, hsRet [2]time.Duration, e1, e2 error, initTimeout time.Duration) {
+	simrt.Sleep(initTimeout + 10*time.Second)
+	names := []string{"client", "server"}
+	procs := []*simrt.Proc{w.pc, w.ps}
+	sess := []*Session{w.cli, w.srv}
+	errs := []error{e1, e2}
+	for i := 0; i < 2; i++ {
+		if !w.alive(procs[i]) {
+			continue
+		}
+		if hsRet[i] == 0 {
+			w.fail("C14.handshake_hang", "the %s's handshake call has not returned %v after the connection was lost mid-handshake (InitializeTimeout %v)", names[i], simrt.Now()-w.crashAt, initTimeout)
+			return
+		}
+		if errs[i] == nil && sess[i] != nil {
+			if !sess[i].IsClosed() {
+				// the peer may have completed the handshake before the fault; then the loss must have been noticed by now
+				w.fail("C14.not_closed", "the %s session was established just before the connection was lost (%s) but is still not closed %v later", names[i], w.crashKind, simrt.Now()-w.crashAt)
+				return
+			}
+		}
+	}
+	for i := 0; i < 2; i++ {
+		if w.alive(procs[i]) && sess[i] != nil {
+			_ = sess[i].Close()
+		}
+	}
+	simrt.Sleep(5 * time.Second)
+	w.census("after a connection loss during the handshake (" + w.crashKind + ")")
+}
+
+func (w *sessWorld) survivorOracles() {
+	// give the survivors time to notice
+	if d := w.crashAt + 5*time.Second - simrt.Now(); d > 0 {
+		simrt.Sleep(d)
+	}
+	kind := w.crashKind
+	procs := []*simrt.Proc{w.pc, w.ps}
+	sess := []*Session{w.cli, w.srv}
+	names := []string{"client", "server"}
+	for i := 0; i < 2; i++ {
+		if !w.alive(procs[i]) {
+			continue
+		}
+		// a local Close of only the other side is noticed through the connection; everything else closes this side directly
+		if !sess[i].IsClosed() {
+			w.fail("C14.not_closed", "%v after %s the %s session is still not closed", simrt.Now()-w.crashAt, kind, names[i])
+			return
+		}
+	}
+	// every pending and later stream call of the survivors fails: no harness thread may still be stuck
+	w.waitThreads(30 * time.Second)
+	for _, th := range w.thr {
+		if th.done || !w.alive(th.proc) {
+			continue
+		}
+		w.fail("C14.hang", "%v after %s thread %s of the surviving %s process is still blocked (%s)", simrt.Now()-w.crashAt, kind, th.name, th.proc.Name, th.g.What())
+		return
+	}
+	// later calls fail too
+	for _, ss := range w.streams {
+		for e := 0; e < 2; e++ {
+			es := ss.ends[e]
+			if es.stream == nil || !w.alive(procs[e]) {
+				continue
+			}
+			if es.stream.IsOpen() {
+				// closed sessions close their streams on the event loop; give it the settle time already spent
+				w.fail("C14.stream_open", "stream %d end %d is still open after its session closed (%s)", ss.idx, e, kind)
+				return
+			}
+			_, err := es.stream.BufferReader().ReadBytes(1)
+			if err == nil {
+				w.fail("C14.read_after_death", "stream %d end %d: ReadBytes succeeded after the session closed (%s)", ss.idx, e, kind)
+				return
+			}
+			if es.hasCb && es.cbLocal+es.cbRemote != 1 {
+				w.fail("C14.close_callbacks", "stream %d: callback end got %d close callbacks (local %d, remote %d) after %s, expected exactly one", ss.idx, es.cbLocal+es.cbRemote, es.cbLocal, es.cbRemote, kind)
+				return
+			}
+		}
+	}
+	for i := 0; i < 2; i++ {
+		if w.alive(procs[i]) {
+			_ = sess[i].Close() // idempotent
+		}
+	}
+	simrt.Sleep(5 * time.Second)
+	w.census("after " + kind + " and Close of the survivors")
 }
 
 func (w *sessWorld) spawn(p *simrt.Proc, name string, f func()) {
 	w.threads++
 	id := w.threads
-	simrt.GoProc(p, name, func() {
-		defer func() { simrt.Send(w.fin, id) }()
+	th := &thread{name: name, proc: p}
+	w.thr = append(w.thr, th)
+	th.g = simrt.GoProc(p, name, func() {
+		defer func() { th.done = true; simrt.Send(w.fin, id) }()
+		if w.crashed {
+			simrt.SetTag("after_session_loss", "yes")
+		}
 		f()
 	})
 }
